@@ -48,4 +48,31 @@ def c06(check):
           "DESIGN.md §4 C06", engine="klist + simrun")
 
 
-EXTRA = [c06, c10, c11]
+def c03(check):
+    check("C03", "exploration",
+          "Seeded search over executor partitionings: each run fixes a system, a k-grid and calculators and executes EVERY "
+          "factorisation NKdiv x NKFFT of the grid (FFT grids below the recommended size and non-uniform ones included), each with a "
+          "drawn FFT library and either serially or under the simulated ray peer with a drawn schedule; every result is compared "
+          "with the canonical NKFFT=1 serial numpy run, a stub calculator on the real Data_K is compared with an independent "
+          "sum over the explicit grid, and every grid k-point must be handed to the calculators exactly once. Exhaustive over "
+          "factorisations per sampled grid, sampled over systems/grids/calculators/schedules.",
+          "Equality 1e-8 of max|reference|; tetrahedron variants only without symmetry reduction (with irreducible K-points the "
+          "integration cells depend on NKdiv - a symmetry-reduction matter, C07); Fermi grids with irrational offset.",
+          "deterministic simulation: enumeration of the work partitioning (NKdiv x NKFFT) with seeded library and worker "
+          "schedule, canonical run and explicit k-sum as reference models",
+          "DESIGN.md §4 C03")
+
+
+def c30(check):
+    check("C30", "exploration",
+          "Same workload as C03 with TabulatorAll(mode='grid'): all factorisations of the sampled grid, drawn FFT library, "
+          "serial or simulated-ray arrival order of the per-K blocks, irreducible K-points on C3z-symmetric models. The returned "
+          "k-points must be the C-ordered grid (each point once) and every slot must hold the value of its own k-point evaluated "
+          "alone (fresh tabulators on a one-point Data_K); component extraction is checked against plain numpy as a by-product.",
+          "Reference = same tabulator code on a one-point Data_K; equality 1e-8 of max|reference|.",
+          "deterministic simulation: enumeration of the work partitioning with seeded arrival order of per-K tabulations, "
+          "single-point evaluation as reference model",
+          "DESIGN.md §4 C30")
+
+
+EXTRA = [c03, c06, c10, c11, c30]
